@@ -60,34 +60,57 @@ class Roles:
             raise AnalysisBroken('File::open(const char*, openmode) not found')
         self.open_fn = opens[0]
 
-        def rec(s, mode):
+        def entry_of(a0, env):
+            a0 = strip_all_casts(a0)
+            if isinstance(a0, dict) and a0.get('k') == 'Un':
+                a0 = strip_all_casts(a0['sub'])
+            if isinstance(a0, dict) and a0.get('k') == 'Ref' and a0.get('dk') in ('method', 'function'):
+                return a0['q']
+            if isinstance(a0, dict) and a0.get('k') == 'Ref' and a0.get('dk') == 'parm':
+                return env.get(a0['id'])
+            return None
+
+        def rec(s, mode, env, depth=0):
             if not isinstance(s, dict):
                 return
             if s.get('k') == 'If':
                 m = self._mode_of_cond(s['cond']) or mode
-                rec(s.get('then'), m)
-                rec(s.get('else'), mode)
+                rec(s.get('then'), m, env, depth)
+                rec(s.get('else'), mode, env, depth)
+                return
+            if s.get('k') == 'Call' and s.get('ck') == 'operator' and s.get('op') == '=' and (s.get('cls') or '').startswith('std::thread'):
+                # m_xThread = std::thread(entry, this)
+                lhs = member_path(s['args'][0])
+                for m in walk(s['args'][1]):
+                    if m.get('k') == 'Construct' and (m.get('cls') or '').startswith('std::thread') and m.get('args'):
+                        q = entry_of(m['args'][0], env)
+                        if q:
+                            self.threads.setdefault(q, {'mode': mode, 'line': s.get('l')})['member'] = field_root(lhs)
+                            self.threads[q]['mode'] = self.threads[q].get('mode') or mode
                 return
             if s.get('k') == 'Construct' and (s.get('cls') or '').startswith('std::thread') and s.get('args'):
-                a0 = strip_all_casts(s['args'][0])
-                if isinstance(a0, dict) and a0.get('k') == 'Un':
-                    a0 = strip_all_casts(a0['sub'])
-                if isinstance(a0, dict) and a0.get('k') == 'Ref' and a0.get('dk') in ('method', 'function'):
-                    self.threads[a0['q']] = {'mode': mode, 'line': s.get('l')}
+                q = entry_of(s['args'][0], env)
+                if q:
+                    self.threads.setdefault(q, {'mode': mode, 'line': s.get('l')})
                     return
+            if s.get('k') == 'Call' and s.get('ck') == 'member' and s.get('calleeInRoot') and s.get('clsq') == FILE and depth < 2:
+                # a private helper of File that starts the threads it is given
+                cands = [f for f in F.functions.get(s.get('callee'), []) if f['sig'] == s.get('csig') and f.get('access') == 2]
+                if len(cands) == 1 and cands[0] is not self.open_fn:
+                    env2 = {}
+                    for p_, a_ in zip(cands[0]['params'], s.get('args', [])):
+                        q = entry_of(a_, env)
+                        if q:
+                            env2[p_['id']] = q
+                    if env2:
+                        rec(cands[0]['body'], mode, env2, depth + 1)
+                        return
             if s.get('k') == 'Lambda':
                 return
             from facts import children
             for c in children(s):
-                rec(c, mode)
-        rec(self.open_fn['body'], None)
-        # thread member each entry is stored in: assignment  m_xThread = std::thread(entry, this)
-        for n in walk(self.open_fn['body']):
-            if n.get('k') == 'Call' and n.get('ck') == 'operator' and n.get('op') == '=' and (n.get('cls') or '').startswith('std::thread'):
-                lhs = member_path(n['args'][0])
-                for m in walk(n['args'][1]):
-                    if m.get('k') == 'Ref' and m.get('q') in self.threads:
-                        self.threads[m['q']]['member'] = field_root(lhs)
+                rec(c, mode, env, depth)
+        rec(self.open_fn['body'], None, {})
         if len(self.threads) < 4:
             raise AnalysisBroken('found %d thread entry points in File::open, expected 4' % len(self.threads))
         for q, t in self.threads.items():
